@@ -122,17 +122,20 @@ Do(a) ==
             /\ LET m == reg[a.i] * Len(pop) IN evals' = evals + m /\ calls' = calls + m
             /\ res' = R("ok", 0)
             /\ UNCHANGED <<best, arch, shownK, reg>>
-       [] a.op = "evaluate_scoped" -> \* Scope::new_with(state_init registering a.s, body = { leaf; evaluate_with::<a.i> }):
-                                      \* the evaluator of the innermost registration is applied (res.v = the counter the
-                                      \* body sees after the step: the scope's own); if there is none the scope fails before
-                                      \* anything in it executes (res.v = leaves executed).  The scope's counter and
-                                      \* registration end with it.
+       [] a.op = "evaluate_scoped" -> \* Scope::new_with(state_init registering a.s, body = { leaf; probe; evaluate_with::<a.i>; probe }):
+                                      \* the evaluator of the innermost registration is applied and the counter the body sees
+                                      \* advances by what was counted (res.v = difference of the two probes); if there is no
+                                      \* evaluator the scope fails before anything in it executes (res.v = leaves executed).
+                                      \* The scope's registration ends with it.  WHERE the counter of a scope lives is not part
+                                      \* of the statement: afterwards the caller's counter is what it was (the scope counted on
+                                      \* one of its own, the pinned code) or has advanced by the same amount.
             /\ LET e == Effective(a.i, a.s) IN
-               IF e = 0 THEN res' = R("err", 0) /\ UNCHANGED <<pop, calls>>
+               IF e = 0 THEN res' = R("err", 0) /\ UNCHANGED <<pop, calls, evals>>
                ELSE /\ pop' = [j \in Idx |-> Ind(pop[j].s, F[pop[j].s])]
                     /\ calls' = calls + e * Len(pop)
+                    /\ evals' \in {evals, evals + e * Len(pop)}
                     /\ res' = R("ok", e * Len(pop))
-            /\ UNCHANGED <<best, arch, shownK, evals, reg>>
+            /\ UNCHANGED <<best, arch, shownK, reg>>
        [] a.op = "evaluate_missing" -> \* configuration asking for an evaluator id that is not registered, placed
                                        \* (a.s) at top level / in a loop body / if body / else body taken / else body
                                        \* not taken: fails in `require`; res.v = number of components that executed
@@ -319,7 +322,8 @@ RegisteredApplied ==
                  /\ Len(pop') = Len(pop) /\ \A j \in Idx : pop'[j].s = pop[j].s /\ pop'[j].o = F[pop[j].s] ]_mvars
 \* C06: the counter moves only with real objective calls made by evaluation steps
 CountOnlyByEvaluate ==
-  [][ /\ act'.op \notin {"evaluate", "evaluate_id", "init_run"} => evals' = evals
+  [][ /\ act'.op \notin {"evaluate", "evaluate_id", "evaluate_scoped", "init_run"} => evals' = evals
+      /\ act'.op = "evaluate_scoped" => evals' - evals \in {0, calls' - calls}
       /\ act'.op = "init_run" => evals' = 0
       /\ act'.op \notin {"evaluate", "evaluate_id", "evaluate_scoped", "evaluate_with"} => calls' = calls
       /\ act'.op = "evaluate_missing" => res'.k = "err" /\ res'.v = 0 /\ pop' = pop
